@@ -24,25 +24,26 @@ const (
 )
 
 type Frame struct {
-	fn       *ssa.Function
-	regs     map[ssa.Value]SV
-	cellOf   map[*ssa.Alloc]*Cell
-	defers   []deferred
-	contract *Contract // when this is the function under verification
-	depth    int
-	prefix   string // obligation name prefix for inlined frames
-	entry    *State // entry state (for old())
-	params   []SV
-	top      bool
-	loopOrd  map[*ssa.BasicBlock]int
-	retStates []*State
-	retVals   []SV
-	variantAt map[*ssa.BasicBlock]string
-	variantT  types.Type
-	loopEntry map[*ssa.BasicBlock]*State
-	recovers  bool
-	curBlock  *ssa.BasicBlock
-	loops     []*loopCtx
+	fn         *ssa.Function
+	regs       map[ssa.Value]SV
+	cellOf     map[*ssa.Alloc]*Cell
+	defers     []deferred
+	contract   *Contract // when this is the function under verification
+	depth      int
+	prefix     string // obligation name prefix for inlined frames
+	entry      *State // entry state (for old())
+	params     []SV
+	top        bool
+	loopOrd    map[*ssa.BasicBlock]int
+	retStates  []*State
+	retVals    []SV
+	variantAt  map[*ssa.BasicBlock]string
+	variantT   types.Type
+	loopEntry  map[*ssa.BasicBlock]*State
+	recovers   bool
+	curBlock   *ssa.BasicBlock
+	loops      []*loopCtx
+	nilChecked map[string]*ssa.BasicBlock
 }
 
 type retInfo struct {
@@ -683,6 +684,19 @@ func (e *Engine) nilCheck(fr *Frame, st *State, ref string, what string) {
 	if strings.HasPrefix(ref, "wm!") {
 		return // freshly allocated
 	}
+	if fr == nil {
+		return
+	}
+	if fr.nilChecked == nil {
+		fr.nilChecked = map[string]*ssa.BasicBlock{}
+	}
+	if b, ok := fr.nilChecked[ref]; ok && fr.curBlock != nil && b.Dominates(fr.curBlock) {
+		return // already established on every path to this point
+	}
+	if fr.curBlock != nil {
+		fr.nilChecked[ref] = fr.curBlock
+	}
+	defer e.vc.assume(st.pc, fmt.Sprintf("(not (= %s 0))", ref))
 	e.vc.oblige(e.oname(fr, "safety:nil#"), st.pc, fmt.Sprintf("(not (= %s 0))", ref), "nil dereference: "+what)
 }
 
@@ -1325,7 +1339,6 @@ func (e *Engine) bytesToString(st *State, el types.Type, s *SliceSV) string {
 	vc.assume("true", fmt.Sprintf("(forall ((%s Int)) (! (=> (and (<= 0 %s) (< %s (strlen %s))) (= (strat %s %s) %s)) :pattern ((strat %s %s))))", q, q, q, id, id, q, sel, id, q))
 	return id
 }
-
 
 func (e *Engine) stringToBytes(st *State, el types.Type, s string) SV {
 	n := e.vc.define("n", e.ar.idxSort(), e.strLenIdx(s))
